@@ -35,7 +35,8 @@ Definition astate_eqb (a b : astate) : bool :=
   && list_eqb (keyed_eqb (list_eqb N.eqb)) (a_sim a) (a_sim b)
   && list_eqb (keyed_eqb (list_eqb val_eqb)) (a_effs a) (a_effs b)
   && list_eqb (keyed_eqb (list_eqb pairNN_eqb)) (a_asg a) (a_asg b)
-  && list_eqb (keyed_eqb (list_eqb val_eqb)) (a_incdec a) (a_incdec b).
+  && list_eqb (keyed_eqb (list_eqb val_eqb)) (a_incdec a) (a_incdec b)
+  && list_eqb (keyed_eqb (list_eqb val_eqb)) (a_ceffs a) (a_ceffs b).
 Definition cell_eqb (a b : cell) : bool :=
   match a, b with
   | CList x, CList y => list_eqb val_eqb x y
